@@ -24,6 +24,8 @@ REAL = ["msdm.algorithms.lrtdp.LRTDP (unmodified)", "msdm.core.utils.dictutils.d
 STUB = ["table MDP behind msdm's model interface", "random.Random stream (SimRandom)", "reference value iteration, exact policy evaluation, expected steps to absorption"]
 ASSUMPTIONS = ["the eps*N clauses are applied with every admissible heuristic; value monotonicity and the Bonet-Geffner trial bound only with monotone ones (their hypothesis)",
                "proper MDPs with <= 6 non-absorbing states", "'reported values' = entries the result actually stores (V, Q, initial_value)"]
+from sim.models import SEAM_RANGES  # noqa: E402
+ASSUMPTIONS = ASSUMPTIONS + [SEAM_RANGES]
 
 
 def _size(rng):
